@@ -612,3 +612,95 @@ func VfPublicKeyFromNode() {
 
 var _ = vfRegister("VfProcessValues", VfProcessValues)
 var _ = vfRegister("VfPublicKeyFromNode", VfPublicKeyFromNode)
+
+// vfHookDS: a datastore that lets something happen right after the first read
+// of a key (another request being served between two steps of an operation).
+type vfHookDS struct {
+	ds.Batching
+	afterGet func()
+	failPut  bool
+}
+
+func (d *vfHookDS) Get(ctx context.Context, k ds.Key) ([]byte, error) {
+	v, err := d.Batching.Get(ctx, k)
+	if f := d.afterGet; f != nil {
+		d.afterGet = nil
+		f()
+	}
+	return v, err
+}
+
+func (d *vfHookDS) Put(ctx context.Context, k ds.Key, v []byte) error {
+	if d.failPut {
+		return errors.New("datastore write failed")
+	}
+	return d.Batching.Put(ctx, k, v)
+}
+
+// VfPutValueRace (C05, C06): a remote PUT_VALUE served between PutValue's read
+// of the local record and its write; or a local store that cannot be written.
+// A worse value is never pushed to the network as if it had been accepted.
+func VfPutValueRace() {
+	P := vfParam("P")
+	vfHashBits(vfParam("W"))
+	vfHashFixed()
+	e, _, _ := vfClientEnv(P+1, P)
+	d := e.dht
+	hds := &vfHookDS{Batching: dssync.MutexWrap(ds.NewMapDatastore())}
+	d.valueStore = records.NewValueStore(hds, d.Validator, 0)
+	key := string(vfHashInput("key", []byte("/vf/"), 4))
+	ctx := context.Background()
+	var puts []vfSent
+	e.sender.reply = func(_ context.Context, p peer.ID, req *pb.Message) (*pb.Message, error) {
+		switch req.Type {
+		case pb.Message_FIND_NODE:
+			return pb.NewMessage(pb.Message_FIND_NODE, nil, 0), nil
+		case pb.Message_PUT_VALUE:
+			puts = append(puts, vfSent{p, req})
+			return req, nil
+		}
+		return nil, errors.New("unexpected request")
+	}
+	mine := vfU8("local.rank")
+	if vfBool("localStoreCannotBeWritten") {
+		hds.failPut = true
+		err := d.PutValue(ctx, key, []byte{1, mine})
+		vfWaitIdle()
+		vfAssert(err != nil, "putvalue/fails-when-the-record-cannot-be-stored-locally")
+		vfAssert(len(puts) == 0, "putvalue/nothing-is-sent-for-a-record-that-is-not-stored-locally")
+		vfReach("putvaluerace/local-failure-end")
+		return
+	}
+	theirs := vfU8("remote.rank")
+	remoteAcked := false
+	hds.afterGet = func() {
+		req := pb.NewMessage(pb.Message_PUT_VALUE, []byte(key), 0)
+		req.Record = &recpb.Record{Key: []byte(key), Value: []byte{1, theirs}}
+		_, rerr := d.handlePutValue(ctx, peer.ID("remote-writer"), req)
+		remoteAcked = rerr == nil
+	}
+	err := d.PutValue(ctx, key, []byte{1, mine})
+	vfWaitIdle()
+	vfAssert(remoteAcked, "putvaluerace/remote-put-into-an-empty-store-is-acknowledged")
+	rec, gerr := d.valueStore.Get(ctx, key)
+	vfAssert(gerr == nil && rec != nil, "putvaluerace/something-is-stored")
+	if rec != nil {
+		best := theirs
+		if mine > best {
+			best = mine
+		}
+		vfAssert(rec.GetValue()[1] == best, "putvaluerace/the-store-holds-the-better-record")
+	}
+	if theirs > mine {
+		vfAssert(err != nil, "putvalue/refused-when-a-better-value-was-stored-meanwhile")
+		vfAssert(len(puts) == 0, "putvalue/a-refused-value-is-not-pushed-to-the-network")
+	}
+	if err == nil {
+		for _, s := range puts {
+			vfAssert(s.msg.GetRecord().GetValue()[1] == mine, "putvalue/sends-the-same-record")
+		}
+	}
+	vfReach("putvaluerace/end")
+}
+
+var _ = vfRegister("VfPutValueRace", VfPutValueRace)
